@@ -27,6 +27,7 @@ from holopy.core.errors import raise_fitting_api_error
 from holopy.scattering.errors import (MultisphereFailure, TmatrixFailure,
                                       InvalidScatterer, MissingParameter)
 from holopy.scattering.interface import calc_holo, interpret_theory
+from holopy.scattering.scatterer import RigidCluster
 from holopy.inference import prior
 from holopy.core.mapping import Mapper, read_map, edit_map_indices
 
@@ -115,7 +116,7 @@ class Model(HoloPyObject):
 
         dummy_scatterer = fields['_dummy_scatterer']
         scatterer_parameters = read_map(maps['scatterer'], parameters)
-        scatterer = dummy_scatterer.from_parameters(scatterer_parameters)
+        scatterer = cls._scatterer_like(dummy_scatterer, scatterer_parameters)
         theory_parameters = read_map(maps['theory'], parameters)
         theory = fields['theory'].from_parameters(theory_parameters)
         kwargs = {'scatterer': scatterer, 'theory': theory}
@@ -212,7 +213,17 @@ class Model(HoloPyObject):
                 dummy_parameters[key] = [0 for _ in value]
             else:
                 dummy_parameters[key] = 0
-        return scatterer.from_parameters(dummy_parameters)
+        return cls._scatterer_like(scatterer, dummy_parameters)
+
+    @staticmethod
+    def _scatterer_like(scatterer, parameters):
+        # RigidCluster.from_parameters returns the equivalent plain Spheres,
+        # which would forget the rotation and translation parameters
+        if isinstance(scatterer, RigidCluster):
+            spheres = scatterer.spheres.from_parameters(parameters)
+            return RigidCluster(spheres, parameters['translation'],
+                                parameters['rotation'])
+        return scatterer.from_parameters(parameters)
 
     def ensure_parameters_are_listlike(self, pars):
         if isinstance(pars, dict):
